@@ -411,3 +411,52 @@ package transport
 //@   assert at return 1 old(c.closed) && ncalls("dequeueAll") == 0 && ncalls("Swap") == 0
 //@   assert at call dequeueAll#1 c.closed && !old(c.closed) && arg0 == c.list
 //@   assert at call Swap#1 arg1 == nil
+
+// ---- C01: outbound DATA never exceeds the peer's windows -----------------------------------------------
+//
+// loopy is one goroutine; its state is plain sequential state. The stream window
+// still open is int(oiws) - bytesOutStanding (negative after the peer shrank
+// INITIAL_WINDOW_SIZE below what is outstanding: such a stream must not send).
+// Trusted frames: the stream list, item list, framer and the mem.Reader cursor
+// touch only themselves.
+
+//@ func (*outStreamList).enqueue
+//@   trusted
+//@ func (*outStreamList).dequeue
+//@   trusted
+//@ func (*itemList).peek
+//@   trusted
+//@ func (*framer).writeData
+//@   trusted
+
+// Every DATA frame handed to the framer is at most 16384 bytes, at most the
+// connection window, and -- unless it is empty -- at most the stream's open
+// window computed in signed arithmetic; afterwards both ledgers are charged with
+// exactly that size.
+//@ func (*loopyWriter).processData
+//@   prop C01
+//@   opt purecalls replenish onEachWrite
+//@   requires l != nil && l.activeStreams != nil && l.framer != nil
+//@   assert at return 1 l.sendQuota == 0 && ncalls("writeData") == 0
+//@   assert at return 3 strQuota <= 0 && strQuota == int(l.oiws)-str.bytesOutStanding && str.state == waitingOnStreamQuota && ncalls("writeData") == 0
+//@   assert at call writeData#1 arg1 == dataItem.streamID && 0 <= size && size <= 16384 && size == hSize+dSize
+//@   assert at call writeData#1 Z(size) <= Z(l.sendQuota) && l.sendQuota == old(l.sendQuota)
+//@   assert at call writeData#1 strQuota == int(l.oiws)-str.bytesOutStanding && size <= max(strQuota, 0)
+//@   assert at call writeData#1 arg2 == (dataItem.endStream && remainingBytes == 0)
+//@   assert at call replenish#1 arg0 == size
+//@   assert at call Discard#1 arg1 == dSize
+//@   assert at call updateStreamAfterWrite#1 arg1 == str && str.bytesOutStanding == int(l.oiws)-strQuota+size && l.sendQuota == old(l.sendQuota)-uint32(size)
+
+// WINDOW_UPDATE: the connection window grows by the increment; a stream's
+// outstanding bytes shrink by it, and a parked stream is re-activated only when
+// its signed window is positive again.
+//@ func (*loopyWriter).incomingWindowUpdateHandler
+//@   prop C01
+//@   requires l != nil && w != nil
+//@   assert at return 1 w.streamID == 0 && l.sendQuota == old(l.sendQuota)+w.increment
+//@   assert at call enqueue#1 arg1 == str && Z(l.oiws) - Z(str.bytesOutStanding) > 0 && str.state == active
+
+// After a write the stream goes back to the active list only with stream window left.
+//@ func (*loopyWriter).updateStreamAfterWrite
+//@   prop C01
+//@   assert at call enqueue#1 arg1 == str && Z(l.oiws) - Z(str.bytesOutStanding) > 0
